@@ -9,6 +9,7 @@ VERIF = os.path.dirname(os.path.dirname(os.path.abspath(__file__)))
 REPO = os.environ.get('VERIF_REPO', '/repo')
 LEAN_DIR = os.path.join(VERIF, 'lean')
 DRIVER = os.path.join(LEAN_DIR, '.lake', 'build', 'bin', 'pgmdriver')
+DRIVER_GEN = os.path.join(LEAN_DIR, '.lake', 'build', 'bin', 'pgmgen')
 Fr = fractions.Fraction
 
 ACCEPTED_AXIOMS = {'propext', 'Classical.choice', 'Quot.sound'}
@@ -127,9 +128,10 @@ def close(a, b, rel=1e-9, abs_=1e-12):
 # driver client
 
 class Driver:
-    def __init__(self):
-        if not os.path.exists(DRIVER):
-            raise Infra('driver not built: ' + DRIVER)
+    def __init__(self, exe=None):
+        self.exe = exe or DRIVER
+        if not os.path.exists(self.exe):
+            raise Infra('driver not built: ' + self.exe)
 
     def run(self, requests, timeout=600):
         """requests: list of dicts (each gets an id).  Returns list of responses in order."""
@@ -140,7 +142,7 @@ class Driver:
             r = dict(r)
             r['id'] = i
             lines.append(json.dumps(r))
-        p = subprocess.run([DRIVER], input=('\n'.join(lines) + '\n').encode(),
+        p = subprocess.run([self.exe], input=('\n'.join(lines) + '\n').encode(),
                            stdout=subprocess.PIPE, stderr=subprocess.PIPE, timeout=timeout)
         if p.returncode != 0:
             raise Infra('driver crashed: ' + p.stderr.decode()[-2000:])
